@@ -176,13 +176,54 @@ def main(tier_):
             v.violation(dict(check="backend-equivalence", family="raw-bytes", op=call["op"], kernel=list(k), emulated=list(e)),
                         "C04/%s(%r) [path bytes that are not valid UTF-8]: kernel backend %s, emulated backend %s" % (call["op"], bytes.fromhex(call["path_hex"]), k, e),
                         dict(id="replay", tree=rtree, feat={"openat2": True}, trace=False, calls=[call]))
+    # (f) an unprivileged caller (effective uid 65534) on a tree with directories it may not search, read or write: the
+    #     permission answers (EACCES / EPERM) and their place in the walk must be the same on both backends
+    U = 65534
+    ptree = [dict(id=5, p=2, n="pub", k="dir"), dict(id=6, p=5, n="f", k="file"), dict(id=7, p=2, n="priv", k="dir", mode=0o700), dict(id=8, p=7, n="f", k="file"),
+             dict(id=9, p=7, n="sub", k="dir"), dict(id=10, p=2, n="nox", k="dir", mode=0o744), dict(id=11, p=10, n="f", k="file"), dict(id=12, p=2, n="nor", k="dir", mode=0o711),
+             dict(id=13, p=12, n="f", k="file"), dict(id=14, p=2, n="own", k="dir", mode=0o700, uid=U), dict(id=15, p=14, n="f", k="file", uid=U), dict(id=16, p=2, n="secretf", k="file", mode=0o600),
+             dict(id=17, p=2, n="l_priv", k="lnk", b="priv/f"), dict(id=18, p=2, n="l_pub", k="lnk", b="pub/f"), dict(id=19, p=2, n="l_thru", k="lnk", b="priv/sub/../../pub/f"),
+             dict(id=20, p=14, n="l_up", k="lnk", b="../priv/sub", uid=U), dict(id=21, p=2, n="st", k="dir", mode=0o1777), dict(id=22, p=21, n="theirs", k="file"), dict(id=23, p=21, n="mine", k="file", uid=U)]
+    pcalls = []
+    for pth in ("pub/f", "priv/f", "priv", "priv/sub/..", "priv/../pub/f", "nox/f", "nox", "nox/..", "nor/f", "nor", "own/f", "secretf", "l_priv", "l_pub", "l_thru", "own/l_up", "own/l_up/../f", "priv/nx", "nox/nx", "st/theirs"):
+        pcalls += [dict(op="resolve", path=pth, euid=U), dict(op="open", path=pth, oflags=O["RDONLY"] | O["NONBLOCK"], euid=U), dict(op="resolve", path=pth, nofollow=True, euid=U)]
+    pcalls += [dict(op="open", path="nor", oflags=O["RDONLY"] | O["DIRECTORY"], euid=U), dict(op="open", path="secretf", oflags=O["PATH"], euid=U), dict(op="open", path="own/f", oflags=O["RDWR"], euid=U),
+               dict(op="open", path="pub/f", oflags=O["WRONLY"], euid=U), dict(op="readlink", path="l_priv", euid=U), dict(op="readlink", path="own/l_up", euid=U),
+               dict(op="mkdir_all", path="pub/new", mode=0o755, euid=U), dict(op="mkdir_all", path="own/n1/n2", mode=0o755, euid=U), dict(op="mkdir_all", path="priv/sub/n", mode=0o755, euid=U),
+               dict(op="mkdir_all", path="own/l_up/n", mode=0o755, euid=U), dict(op="mkdir_all", path="nox/n", mode=0o755, euid=U),
+               dict(op="create", path="own/c1", kind="file", mode=0o644, euid=U), dict(op="create", path="pub/c1", kind="file", mode=0o644, euid=U), dict(op="create", path="own/c2", kind="lnk", target="../priv", euid=U),
+               dict(op="create", path="own/c3", kind="chr", mode=0o644, euid=U),
+               dict(op="create_file", path="own/cf", oflags=O["RDWR"], mode=0o600, euid=U), dict(op="create_file", path="priv/cf", oflags=O["RDWR"], mode=0o600, euid=U), dict(op="create_file", path="secretf", oflags=O["RDWR"], mode=0o600, euid=U),
+               dict(op="remove_file", path="pub/f", euid=U), dict(op="remove_file", path="own/f", euid=U), dict(op="remove_file", path="st/theirs", euid=U), dict(op="remove_file", path="st/mine", euid=U),
+               dict(op="remove_dir", path="priv/sub", euid=U), dict(op="remove_dir", path="own/n1/n2", euid=U), dict(op="remove_all", path="priv", euid=U), dict(op="remove_all", path="own/n1", euid=U), dict(op="remove_all", path="nox", euid=U),
+               dict(op="rename", src="own/c1", dst="pub/g", flags=0, euid=U), dict(op="rename", src="own/c1", dst="own/g", flags=0, euid=U), dict(op="rename", src="pub/f", dst="own/h", flags=0, euid=U),
+               dict(op="rename", src="own/g", dst="st/mine2", flags=0, euid=U), dict(op="rename", src="st/theirs", dst="st/x", flags=0, euid=U)]
+    pres = {}
+    for bname, feat in rootops_static.FEATS:
+        r = run_pv([dict(id="perm|" + bname, tree=ptree, feat=feat, trace=False, calls=pcalls)], jobs=1, tag="C04p")[0]
+        if r.get("status") != "ok" or "results" not in r["out"][0]:
+            raise ToolError("permission case failed: %s" % json.dumps(r)[:300])
+        pres[bname] = ([norm(x) for x in r["out"][0]["results"]], sorted((d["p"], d["n"], d["c"] if d["c"] < 24 else "NEW") for d in r["final"]["dents"]))
+    outc = collections.Counter()
+    for ci, call in enumerate(pcalls):
+        stats["perm_cases"] += 1
+        k, e = pres["kernel"][0][ci], pres["emulated"][0][ci]
+        outc[str(k[1]) if k[0] == "err" else "ok"] += 1
+        if k != e:
+            v.violation(dict(check="backend-equivalence", family="unprivileged", op=call["op"], path=call.get("path") or call.get("src"), kernel=list(k), emulated=list(e)),
+                        "C04/%s(%r) as uid 65534 [tree with directories the caller may not search / read / write]: kernel backend %s, emulated backend %s" % (call["op"], call.get("path") or (call.get("src"), call.get("dst")), k, e),
+                        dict(id="replay", tree=ptree, feat={"openat2": False}, trace=False, calls=pcalls[:ci + 1]))
+    if pres["kernel"][1] != pres["emulated"][1]:
+        v.violation(dict(check="backend-equivalence", family="unprivileged", op="final-tree"), "C04: after the operations of the unprivileged caller the two backends left different trees: kernel-only %s, emulated-only %s" % (
+            [x for x in pres["kernel"][1] if x not in pres["emulated"][1]][:4], [x for x in pres["emulated"][1] if x not in pres["kernel"][1]][:4]), {})
+    stats["perm_outcomes"] = dict(outc)
     if rres["kernel"][1] != rres["emulated"][1]:
         v.violation(dict(check="backend-equivalence", family="raw-bytes", op="final-tree"), "C04: after the operations on paths with raw bytes the two backends left different trees: kernel %s, emulated %s" % (
             [x for x in rres["kernel"][1] if x not in rres["emulated"][1]][:4], [x for x in rres["emulated"][1] if x not in rres["kernel"][1]][:4]), {})
     if nres["kernel"][1] != nres["emulated"][1]:
         v.violation(dict(check="backend-equivalence", family="nul-byte", op="final-tree"), "C04: after the operations with NUL bytes in their paths the two backends left different trees", {})
     rc = v.finish()
-    cov = dict(nul_byte_cases=stats["nul_cases"], raw_byte_cases=stats["raw_byte_cases"], states=cova["states"] + data["gen"]["distinct"], transitions=cova["transitions"] + data["gen"]["states"],
+    cov = dict(unprivileged_cases=stats["perm_cases"], unprivileged_outcomes=stats.get("perm_outcomes"), nul_byte_cases=stats["nul_cases"], raw_byte_cases=stats["raw_byte_cases"], states=cova["states"] + data["gen"]["distinct"], transitions=cova["transitions"] + data["gen"]["states"],
                traces_validated_against_impl=stats["lookup_cases"] + stats["mutation_cases"] + stats["mkrm_cases"] + stats["lattice_cases"], samples=samples or cova["samples"][:2],
                evaluations=2 * (stats["lookup_cases"] + stats["mutation_cases"] + stats["mkrm_cases"] + stats["lattice_cases"]),
                distinct_nontrivial=stats["mutation_cases"] + stats["mkrm_cases"] + stats["lattice_cases"],
